@@ -29,7 +29,17 @@
       steal_into:     bulk_pop on the victim, then push of all but the last value to the thief's own queue
       Drop:           bulk_pop until empty, d1 head.load, d2 tail.block.load, d3 free
 
-  Ghost fields (never read by a non-ghost part of a step): `uaf`, `uninit`, `unpub`, `dfree`, `got`, `fgen`.
+  Ghost fields (never read by a non-ghost part of a step): `uaf`, `uninit`, `unpub`, `dfree`, `got`, `fgen`,
+  `Block.own` (the queue a block was allocated for), `Queue.last` (the newest block allocated for the queue),
+  `Queue.dead` / `Queue.gone` (its `Drop` has started / has freed the last block).
+
+  API discipline (what the Rust type system enforces, `step`/`opOk`): `Drop` takes `&mut self` on the last
+  handle, so it starts only when no actor is inside a routine on that queue (`steal_into` holds `&mut` on the
+  thief's own queue as well) and no routine starts on a queue whose `Drop` has started; only the queues
+  `q < n` exist.
+
+  Two different generations can have the same address only if one was freed before the other was allocated
+  (`alias`): only then is the outcome of `ptr::eq` adversarial.
 -/
 namespace MayVerif.Spmc
 
@@ -56,13 +66,17 @@ structure Block where
   freed : Bool
   fgen : Nat                 -- ghost: number of blocks allocated so far when this one was freed
   data : Nat → Option Val    -- slot ↦ value; `none` = uninitialised
+  own : Qid                  -- ghost: the queue this block was allocated for
 
-def newBlock (start : Nat) : Block := ⟨BSZ, start, none, false, 0, fun _ => none⟩
+def newBlock (own : Qid) (start : Nat) : Block := ⟨BSZ, start, none, false, 0, fun _ => none, own⟩
 
 structure Queue where
   head : HeadW
   tidx : Nat
   tblk : Bid
+  last : Bid                 -- ghost: the newest block allocated for this queue
+  dead : Bool                -- ghost: `Drop` of this queue has started
+  gone : Bool                -- ghost: `Drop` of this queue has freed its last block
 
 inductive Kind | pop | lpop | bulk | empt
   deriving DecidableEq, Repr
@@ -155,9 +169,16 @@ def mkLoc (q : Qid) (k : Kind) (cx : Ctx) : Loc := ⟨q, k, cx, 0, 0, 0, 0⟩
 /-- the access of a field of block `b` -/
 def touch (sh : Sh) (b : Bid) : Sh := if (sh.blks b).freed then { sh with uaf := true } else sh
 
-/-- `ptr::eq` on block addresses: decided by the identifiers unless a freed block is involved -/
+/-- generation `a` was freed before generation `b` was allocated: `b` may have been given the address of `a` -/
+def reusedBy (sh : Sh) (a b : Bid) : Bool := (sh.blks a).freed && decide ((sh.blks a).fgen ≤ b)
+
+/-- two different generations that can have the same address -/
+def alias (sh : Sh) (a b : Bid) : Bool := reusedBy sh a b || reusedBy sh b a
+
+/-- `ptr::eq` on block addresses: decided by the identifiers unless one block was freed before the other was
+    allocated (then the addresses may or may not coincide) -/
 def peq (sh : Sh) (a b : Bid) (g : Bool) : Bool :=
-  if a = b then true else if (sh.blks a).freed || (sh.blks b).freed then g else false
+  if a = b then true else if alias sh a b then g else false
 
 def afterPush (me : Tid) : PK → Pc
   | .plain => .rPush
@@ -204,7 +225,8 @@ def tstep (sh : Sh) (me : Tid) : Pc → Env → Option (Sh × Pc)
   | .idle, .start (.pop q) => some (sh, .t0 (mkLoc q .pop .plain))
   | .idle, .start (.bulk q) => some (sh, .t0 (mkLoc q .bulk .plain))
   | .idle, .start (.steal q) => if q = me then none else some (sh, .t0 (mkLoc q .bulk .steal))
-  | .idle, .start (.drop q) => some (sh, .t0 (mkLoc q .bulk .drop))
+  | .idle, .start (.drop q) =>
+      some ({ sh with qs := upd sh.qs q { (sh.qs q) with dead := true } }, .t0 (mkLoc q .bulk .drop))
   | .idle, .start (.empt q) => some (sh, .t0 (mkLoc q .empt .plain))
   | .idle, _ => none
   | .panic, _ => none
@@ -217,7 +239,8 @@ def tstep (sh : Sh) (me : Tid) : Pc → Env → Option (Sh × Pc)
   | .pu2 q tb pi k, _ =>
       let nb := sh.nextB
       let sh1 := touch sh tb
-      let sh2 := { sh1 with nextB := nb + 1, blks := upd sh1.blks nb (newBlock (pi + 1)) }
+      let sh2 := { sh1 with nextB := nb + 1, blks := upd sh1.blks nb (newBlock q (pi + 1)),
+                            qs := upd sh1.qs q { (sh1.qs q) with last := nb } }
       some (setBlk sh2 tb fun bl => { bl with next := some nb }, .pu3 q nb pi k)
   | .pu3 q nb pi k, _ => some ({ sh with qs := upd sh.qs q { (sh.qs q) with tblk := nb } }, .pu4 q pi k)
   | .pu4 q pi k, _ => some ({ sh with qs := upd sh.qs q { (sh.qs q) with tidx := pi + 1 } }, afterPush me k)
@@ -234,8 +257,7 @@ def tstep (sh : Sh) (me : Tid) : Pc → Env → Option (Sh × Pc)
         let lk : Bool := match l.k with | .bulk => !e | _ => decide (l.hi = BSZ - 1)
         let nid : Nat := match l.k with | .bulk => (if e then pid else 0) | _ => l.hi + 1
         let cur := (sh.qs l.q).head
-        let okb : Bool := decide (cur.blk = l.hb) ||
-          ((sh.blks l.hb).freed && envAba env && decide ((sh.blks l.hb).fgen ≤ cur.blk))
+        let okb : Bool := decide (cur.blk = l.hb) || (envAba env && reusedBy sh l.hb cur.blk)
         if !cur.lock && decide (cur.idx = l.hi) && okb then
           some (setHead sh l.q (if lk then ⟨cur.blk, l.hi, true⟩ else ⟨cur.blk, nid, false⟩),
                 .t4 { l with hb := cur.blk } lk nid)
@@ -286,7 +308,9 @@ def tstep (sh : Sh) (me : Tid) : Pc → Env → Option (Sh × Pc)
   -- Drop
   | .d1 q, _ => retStep sh (.d1 q)
   | .d2 q hb, _ => some (sh, if (sh.qs q).tblk = hb then .d3 q hb else .panic)
-  | .d3 _ b, _ => some (freeBlk sh b, .rDrop)
+  | .d3 q b, _ =>
+      let sh1 := freeBlk sh b
+      some ({ sh1 with qs := upd sh1.qs q { (sh1.qs q) with gone := true } }, .rDrop)
   -- API returns
   | .rPush, _ => retStep sh .rPush
   | .rPop r, _ => retStep sh (.rPop r)
@@ -300,8 +324,31 @@ structure St where
   sh : Sh
   pcs : Tid → Pc
 
+/-- actor `t` at `pc` is inside a routine that has a reference to queue `q` -/
+def onQ (t : Tid) (pc : Pc) (q : Qid) : Bool :=
+  let viaLoc := fun (l : Loc) => l.q == q || (l.cx == .steal && t == q)
+  match pc with
+  | .pu0 q' .. | .pu1 q' .. | .pu2 q' .. | .pu3 q' .. | .pu4 q' .. => q' == q
+  | .t0 l | .t1 l | .t2 l | .tT l | .tE l | .t4 l .. | .t5 l _ | .t6r l | .t6 l .. | .t7 l .. | .t8 l .. | .t9 l _
+  | .tF l .. | .tFree l _ => viaLoc l
+  | .d1 q' | .d2 q' _ | .d3 q' _ => q' == q
+  | _ => false
+
+def alive (s : St) (q : Qid) : Bool := decide (q < s.n) && !(s.sh.qs q).dead
+
+/-- may actor `t` call this API now? (queue exists, its `Drop` has not started; `Drop` needs exclusive access) -/
+def opOk (s : St) (t : Tid) : Op → Bool
+  | .push q _ | .lpop q | .pop q | .bulk q | .empt q => alive s q
+  | .steal q => alive s q && alive s t
+  | .drop q => alive s q && (List.range s.n).all fun u => !onQ u (s.pcs u) q
+
+def guard (s : St) (t : Tid) (e : Env) : Bool :=
+  match s.pcs t, e with
+  | .idle, .start o => opOk s t o
+  | _, _ => true
+
 def step (s : St) (t : Tid) (e : Env) : Option St :=
-  if t < s.n then
+  if t < s.n ∧ guard s t e = true then
     match tstep s.sh t (s.pcs t) e with
     | none => none
     | some (sh', pc') => some ⟨s.n, sh', upd s.pcs t pc'⟩
@@ -309,7 +356,8 @@ def step (s : St) (t : Tid) (e : Env) : Option St :=
 
 /-- `n` actors, `n` queues; queue `q` is owned by actor `q` and starts with block `q` (start index 0) -/
 def init (n : Nat) : St :=
-  ⟨n, ⟨fun q => ⟨⟨q, 0, false⟩, 0, q⟩, fun _ => newBlock 0, n, false, false, false, false, []⟩, fun _ => .idle⟩
+  ⟨n, ⟨fun q => ⟨⟨q, 0, false⟩, 0, q, q, false, false⟩, fun b => newBlock b 0, n, false, false, false, false, []⟩,
+   fun _ => .idle⟩
 
 /-- every finite schedule: disabled choices are skipped, so `∀ sched` is every interleaving -/
 def run (s : St) : List (Tid × Env) → St
